@@ -41,7 +41,12 @@ class Symbolic(SymSymbol):  # type: ignore[misc]  # pylint: disable=too-many-anc
         inner = str(expr)
         display_name = f"{cls_name}({inner})"
 
-        obj = super().__new__(cls, display_name, **assumptions)
+        # Do not go through the cache of `Symbol`: it is keyed by the printed name, so that wrappers of
+        # different operands that merely print alike (e.g. two quantities both shown as `K`) would be
+        # one and the same object, and creating the second would overwrite `factor`, `dimension` and
+        # the wrap flags of the first.
+        cls._sanitize(assumptions, cls)
+        obj = SymSymbol.__xnew__(cls, display_name, **assumptions)
         return obj  # type: ignore[no-any-return]
 
     def __init__(
@@ -55,6 +60,10 @@ class Symbolic(SymSymbol):  # type: ignore[misc]  # pylint: disable=too-many-anc
         self.dimension = collect_expression_and_dimension(expr)[1]
         self.wrap_code = wrap_code
         self.wrap_latex = wrap_latex
+
+    def _hashable_content(self) -> tuple[Any, ...]:
+        # wrappers are equal only if they wrap the same operand, not if their operands print alike
+        return (*super()._hashable_content(), self.factor)
 
 
 class Average(Symbolic):  # pylint: disable=too-many-ancestors
